@@ -673,7 +673,7 @@ def has_attr(path):
 ZERO_WIDTH = ('before', 'after', 'wrap', 'filter', 'replace')
 
 
-def gen_chain(rng, maxlen=4, doc=None):
+def gen_chain(rng, maxlen=4, doc=None, wild=False):
     """Transformer(path).op.op...: at most maxlen operations after the first select.
     Hypothesis of known finding C20-attr-structural: while an attribute selection is in the
     stream (its ATTR pseudo-event is a zero-width selection) no before/after/wrap/filter/replace."""
@@ -688,7 +688,7 @@ def gen_chain(rng, maxlen=4, doc=None):
             op = gen_op(rng, 2, doc)
             if op[0] == 'select' and has_attr(op[1]):
                 attr_seen = True
-            if attr_seen and op[0] in ZERO_WIDTH:
+            if attr_seen and op[0] in ZERO_WIDTH and not wild:
                 continue
             break
         else:
@@ -748,7 +748,7 @@ def gen_value(rng):
     return rng.choice([True, False])
 
 
-def gen_control(rng):
+def gen_control(rng, wild=False):
     r = rng.random()
     name = rng.choice(NAMES)
     nm = [[['', 'name'], name]] if rng.random() < 0.92 else []
@@ -774,6 +774,11 @@ def gen_control(rng):
             kids = []
             for _ in range(rng.choice([0, 1, 1, 2])):
                 kids.append(['t', rng.choice(FVALS + ['1', 'two'])])
+            if wild and rng.random() < 0.4:
+                # outside the hypothesis of the oracle (finding C20-option-children): correspondence only
+                kids.insert(rng.choice([0, len(kids)]), rng.choice([
+                    ['e', ['', 'b'], [], [['t', 'x']]], ['c', 'note'],
+                    ['e', ['', 'option'], [], [['t', 'in']]], ['e', ['', 'input'], [[['', 'name'], 'n']], []]]))
             opts.append(['e', ['', 'option'], oa, kids])
             if rng.random() < 0.3:
                 opts.append(['t', ' '])
@@ -783,13 +788,18 @@ def gen_control(rng):
         return ['e', ['', 'select'], attrs, opts]
     if r < 0.85:
         kids = [['t', rng.choice(['old', 'x', ' '])]] if rng.random() < 0.7 else []
+        if wild and rng.random() < 0.4:
+            kids.append(rng.choice([['e', ['', 'b'], [], [['t', 'y']]], ['c', 'note'],
+                                    ['e', ['', 'textarea'], [[['', 'name'], 'm']], [['t', 'z']]]]))
         return ['e', ['', 'textarea'], list(nm), kids]
     if r < 0.93:
-        return ['e', ['', 'p'], [], [gen_control(rng), ['t', 'lbl']]]
+        return ['e', ['', 'p'], [], [gen_control(rng, wild), ['t', 'lbl']]]
+    if wild and r < 0.97:
+        return ['e', [rng.choice(['', NS]), 'form'], [[['', 'name'], 'f1']], [gen_control(rng, wild)]]
     return ['t', rng.choice(['lbl', ' '])]
 
 
-def gen_form_doc(rng):
+def gen_form_doc(rng, wild=False):
     body = []
     for _ in range(rng.choice([1, 1, 2])):
         fattrs = []
@@ -797,9 +807,9 @@ def gen_form_doc(rng):
             fattrs.append([['', 'name'], rng.choice(['f1', 'f2'])])
         if rng.random() < 0.3:
             fattrs.append([['', 'id'], rng.choice(['i1', 'i2'])])
-        body.append(['e', ['', 'form'], fattrs, [gen_control(rng) for _ in range(rng.choice([1, 2, 3, 4, 5]))]])
+        body.append(['e', ['', 'form'], fattrs, [gen_control(rng, wild) for _ in range(rng.choice([1, 2, 3, 4, 5]))]])
         if rng.random() < 0.3:
-            body.append(gen_control(rng))       # a control outside any form
+            body.append(gen_control(rng, wild))       # a control outside any form
     return [['e', ['', 'html'], [], body]]
 
 
@@ -822,9 +832,18 @@ def textarea_names(nodes, out=None):
     return out
 
 
-def gen_form_case(rng):
-    c = {'kind': 'form', 'doc': gen_form_doc(rng), 'data': gen_data(rng), 'passwords': rng.random() < 0.3,
+def gen_form_case(rng, wild=False):
+    c = {'kind': 'form', 'doc': gen_form_doc(rng, wild), 'data': gen_data(rng), 'passwords': rng.random() < 0.3,
          'name': None, 'id': None}
+    if wild:
+        # correspondence only: nothing is kept inside the hypotheses of the oracle
+        c['kind'] = 'formx'
+        r = rng.random()
+        if r < 0.15:
+            c['name'] = rng.choice(['f1', 'f2'])
+        elif r < 0.25:
+            c['id'] = rng.choice(['i1', 'i2'])
+        return c
     # hypothesis of filler_fills_given_partial (known finding C20-textarea-none): no None / empty
     # list for the name of a textarea
     tn = textarea_names(c['doc'])
